@@ -10,6 +10,7 @@ import (
 	"fmt"
 	"os"
 	"path/filepath"
+	"regexp"
 	"sort"
 	"strconv"
 	"strings"
@@ -76,25 +77,26 @@ type Violation struct {
 }
 
 type Run struct {
-	T        *testing.T
-	ID       string
-	Seed     uint64
-	Tier     string
-	OutDir   string
-	Rng      *Rng
-	ops      *bufio.Writer
-	obs      *bufio.Writer
-	fops     *os.File
-	fobs     *os.File
-	nOps     int
-	hits     map[string]int
-	classes  map[string]bool
-	nontriv  map[string]bool
-	viol     []Violation
-	samples  []string
-	extra    map[string]any
-	traces   int
-	curTrace []string
+	T         *testing.T
+	ID        string
+	Seed      uint64
+	Tier      string
+	OutDir    string
+	Rng       *Rng
+	ops       *bufio.Writer
+	obs       *bufio.Writer
+	fops      *os.File
+	fobs      *os.File
+	nOps      int
+	hits      map[string]int
+	classes   map[string]bool
+	nontriv   map[string]bool
+	viol      []Violation
+	samples   []string
+	extra     map[string]any
+	traces    int
+	curTrace  []string
+	pendFails [][2]string
 	// AutoClass: stateless protocols — each distinct op line is a case; non-trivial iff not an error
 	AutoClass bool
 }
@@ -122,6 +124,12 @@ func NewRun(t *testing.T, id string) *Run {
 		t.Fatal(err)
 	}
 	r.ops, r.obs = bufio.NewWriterSize(r.fops, 1<<20), bufio.NewWriterSize(r.fobs, 1<<20)
+	// C11: any error / panic of the application's begin or end blocker, in whatever package harness,
+	// is reported with the trace up to and including the op that ran the block
+	blockFailHook = func(kind string, err error) {
+		r.pendFails = append(r.pendFails, [2]string{"C11/" + kind + "/" + failClass(err), err.Error()})
+		r.Hit("c11/" + kind + "-failed")
+	}
 	return r
 }
 
@@ -156,6 +164,14 @@ func (r *Run) Emit(op, obs string) {
 	r.obs.WriteByte('\n')
 	r.nOps++
 	r.curTrace = append(r.curTrace, op)
+	for _, pf := range r.pendFails {
+		d := pf[1]
+		if len(d) > 300 {
+			d = d[:300]
+		}
+		r.Violate(pf[0], d, r.curTrace...)
+	}
+	r.pendFails = nil
 	if digestOut != nil && lastFix != nil && lastFix.App != nil {
 		// C12: digest of every KV store after every op of every package harness
 		fmt.Fprintf(digestOut, "op=%d %s\n", r.nOps, lastFix.StoreDigest())
@@ -198,11 +214,31 @@ func (r *Run) Violate(sig, detail string, replay ...string) {
 	r.viol = append(r.viol, Violation{sig, detail, replay})
 }
 
+var reDigits = regexp.MustCompile(`[0-9]+`)
+var reNonWord = regexp.MustCompile(`[^a-z]+`)
+
+// failClass: a stable short class of an error text (digits and addresses dropped, first words kept)
+func failClass(err error) string {
+	m := strings.ToLower(err.Error())
+	if IsPanic(err) {
+		m = "panic " + m
+	}
+	m = reDigits.ReplaceAllString(m, "")
+	m = strings.Trim(reNonWord.ReplaceAllString(m, "-"), "-")
+	if len(m) > 70 {
+		m = m[:70]
+	}
+	return m
+}
+
 func (r *Run) Close() {
 	r.ops.Flush()
 	r.obs.Flush()
 	r.fops.Close()
 	r.fobs.Close()
+	if blocksRun > 0 {
+		r.hits["c11/blocks-run"] = blocksRun
+	}
 	hk := make([]string, 0, len(r.hits))
 	for k := range r.hits {
 		hk = append(hk, k)
